@@ -92,7 +92,7 @@ theorem bandpass_rejects (shape : List Nat) (img : Array Rat) (lshort : List Rat
   unfold bandpass
   split
   · exact ⟨_, rfl⟩
-  · simp [hc]
+  · simp
 
 /-- an even smoothing length is rejected as well (`boxcar`'s own check) -/
 theorem bandpass_rejects_even (shape : List Nat) (img : Array Rat) (lshort : List Rat)
@@ -181,5 +181,256 @@ theorem bandpass_homogeneous (shape : List Nat) (img : Array Rat) (lshort : List
         have hq' : q < (diff shape img lshort kernels llong).size := by simpa [scale] using hq
         rw [get_map_lt _ _ (by simpa [scale] using hq'), get_scale, get_scale,
           get_map_lt _ _ hq', clip_scale hc]
+
+
+/-! ## transposition (2-D) -/
+
+theorem lowpass_transpose {H W : Nat} {img : Array Rat} (hsz : img.size = H * W)
+    (s0 s1 : Rat) (k0 k1 : Array Rat) :
+    lowpass [W, H] (transpose2 H W img) [s1, s0] [k1, k0] =
+      transpose2 H W (lowpass [H, W] img [s0, s1] [k0, k1]) := by
+  unfold lowpass
+  simp only [zipFilt]
+  exact passes2_transpose (srcOK_lowFilt s0 k0) (srcOK_lowFilt s1 k1) hsz
+
+theorem boxcar_transpose {H W : Nat} {img : Array Rat} (hsz : img.size = H * W) (l0 l1 : Int) :
+    boxcarRaw [W, H] (transpose2 H W img) [l1, l0] =
+      transpose2 H W (boxcarRaw [H, W] img [l0, l1]) := by
+  unfold boxcarRaw
+  simp only [List.map]
+  exact passes2_transpose (srcOK_boxFilt l0) (srcOK_boxFilt l1) hsz
+
+/-- **"commutes with transposition"** (2-D): the bandpass of the transposed image, with the
+    per-axis parameters swapped along with the axes, is the transpose of the bandpass; argument
+    errors are the same on both sides. -/
+theorem bandpass_transpose (H W : Nat) (img : Array Rat) (hsz : img.size = H * W)
+    (s0 s1 : Rat) (k0 k1 : Array Rat) (l0 l1 : Int) (thr : Option Rat) :
+    bandpass [W, H] (transpose2 H W img) [s1, s0] [k1, k0] [l1, l0] thr =
+      (bandpass [H, W] img [s0, s1] [k0, k1] [l0, l1] thr).map (transpose2 H W) := by
+  have hclash : scaleClash [s1, s0] [l1, l0] = scaleClash [s0, s1] [l0, l1] := by
+    simp only [scaleClash, Bool.or_false]; exact Bool.or_comm _ _
+  have hodd : [l1, l0].all isOdd = [l0, l1].all isOdd := by
+    simp only [List.all_cons, List.all_nil, Bool.and_true]; exact Bool.and_comm _ _
+  unfold bandpass
+  rw [hclash, hodd]
+  simp only [List.length_cons, List.length_nil, ne_eq, not_true_eq_false, or_self, if_false]
+  split
+  · rfl
+  · split
+    · rfl
+    · simp only [Except.map, Except.ok.injEq]
+      unfold diff
+      rw [lowpass_transpose hsz, boxcar_transpose hsz,
+        subArr_transpose2 (by simpa using hsz) (by simpa using hsz),
+        map_transpose2 _ (clip_zero _)]
+
+/-! ## the axis-by-axis passes are the documented 2-D filters -/
+
+/-- a line extended by zeros, indexed by integers -/
+def extZ (n : Nat) (g : Nat → Rat) (z : Int) : Rat := if 0 ≤ z ∧ z < n then g z.toNat else 0
+
+/-- pixel `(y, x)` of the `H × W` image `img`, **zero beyond the border** -/
+def pxZ (H W : Nat) (img : Array Rat) (y x : Int) : Rat :=
+  extZ H (fun t => extZ W (fun u => px W img t u) x) y
+
+/-- index clamped into `0 … n-1` -/
+def clampI (n : Nat) (z : Int) : Nat := min (n - 1) z.toNat
+
+/-- pixel `(y, x)` of the `H × W` image `img`, **edge values repeated** -/
+def pxC (H W : Nat) (img : Array Rat) (y x : Int) : Rat := px W img (clampI H y) (clampI W x)
+
+theorem sample_corr (w : Array Rat) (n i j : Nat) (g : Nat → Rat) :
+    sample g ((corr w).src n i j) = extZ n g ((i : Int) + (j : Int) - ((w.size / 2 : Nat) : Int)) := by
+  simp only [corr, extZ]
+  by_cases h : w.size / 2 ≤ i + j ∧ i + j - w.size / 2 < n
+  · rw [if_pos h, if_pos (by omega)]
+    simp only [sample]
+    congr 1; omega
+  · rw [if_neg h, if_neg (by omega)]
+    rfl
+
+theorem sample_unif (m n i j : Nat) (g : Nat → Rat) :
+    sample g ((unif m).src n i j) = g (clampI n ((i : Int) + (j : Int) - ((m / 2 : Nat) : Int))) := by
+  simp only [unif, sample, clampI]
+  congr 1; omega
+
+/-- the kernel in force on an axis: the given one if `σ > 0`, otherwise the axis is skipped, which
+    is the same as the one-tap kernel `(1)` (a Gaussian of width 0) -/
+def effKernel (s : Rat) (k : Array Rat) : Array Rat := if s > 0 then k else #[1]
+
+/-- the box side in force on an axis: `size` if `> 1`, otherwise the axis is skipped (side 1) -/
+def effSize (l : Int) : Nat := if l > 1 then l.toNat else 1
+
+theorem lowFilt_apply (s : Rat) (k : Array Rat) {n i : Nat} (hi : i < n) (g : Nat → Rat) :
+    (lowFilt s k).apply n i g = (corr (effKernel s k)).apply n i g := by
+  unfold lowFilt effKernel
+  split
+  · rfl
+  · rw [apply_skip]
+    simp [Filt.apply, corr, sumTo, sample, TrackpyV.Bandpass.get, hi]
+
+theorem boxFilt_apply (l : Int) {n i : Nat} (hi : i < n) (g : Nat → Rat) :
+    (boxFilt l).apply n i g = (unif (effSize l)).apply n i g := by
+  unfold boxFilt effSize
+  split
+  · rfl
+  · rw [apply_skip]
+    have : min (n - 1) i = i := by omega
+    simp [Filt.apply, unif, sumTo, sample, this]
+
+/-- **"the image convolved with the truncated normalised Gaussian of width lshort (zero beyond the
+    border)"**, 2-D, every combination of smoothed / skipped axes: pixel `(r, c)` of `lowpass` is
+    the 2-D correlation of the zero-extended image with the outer product `k₀ ⊗ k₁` of the
+    per-axis kernels in force, centred at `⌊len/2⌋` (for the symmetric Gaussian kernels
+    correlation and convolution coincide: `lowpass_is_convolution_symm`). -/
+theorem lowpass_is_convolution_gen (H W : Nat) (img : Array Rat) (hsz : img.size = H * W)
+    (s0 s1 : Rat) (k0 k1 : Array Rat) (r c : Nat) (hr : r < H) (hc : c < W) :
+    px W (lowpass [H, W] img [s0, s1] [k0, k1]) r c =
+      sumTo (effKernel s0 k0).size (fun a => sumTo (effKernel s1 k1).size (fun b =>
+        get (effKernel s0 k0) a * get (effKernel s1 k1) b *
+          pxZ H W img ((r : Int) + (a : Int) - (((effKernel s0 k0).size / 2 : Nat) : Int))
+                      ((c : Int) + (b : Int) - (((effKernel s1 k1).size / 2 : Nat) : Int)))) := by
+  unfold lowpass
+  simp only [zipFilt]
+  rw [px_passes2 (srcOK_lowFilt s1 k1) hsz hr hc, lowFilt_apply _ _ hc]
+  simp only [lowFilt_apply _ _ hr]
+  generalize effKernel s0 k0 = k0
+  generalize effKernel s1 k1 = k1
+  rw [apply_comm]
+  unfold Filt.apply
+  apply sumTo_congr; intro a _
+  rw [sample_corr, show (corr k0).wt a = get k0 a from rfl]
+  unfold pxZ extZ
+  split
+  · rw [← sumTo_mul_left]
+    apply sumTo_congr; intro b _
+    rw [sample_corr, show (corr k1).wt b = get k1 b from rfl]
+    unfold extZ
+    split <;> ring
+  · simp [sumTo_zero]
+
+/-- the same with both axes smoothed (`σ₀, σ₁ > 0`): the kernels in force are the given ones -/
+theorem lowpass_is_convolution (H W : Nat) (img : Array Rat) (hsz : img.size = H * W)
+    (s0 s1 : Rat) (hs0 : 0 < s0) (hs1 : 0 < s1) (k0 k1 : Array Rat) (r c : Nat)
+    (hr : r < H) (hc : c < W) :
+    px W (lowpass [H, W] img [s0, s1] [k0, k1]) r c =
+      sumTo k0.size (fun a => sumTo k1.size (fun b =>
+        get k0 a * get k1 b *
+          pxZ H W img ((r : Int) + (a : Int) - ((k0.size / 2 : Nat) : Int))
+                      ((c : Int) + (b : Int) - ((k1.size / 2 : Nat) : Int)))) := by
+  have := lowpass_is_convolution_gen H W img hsz s0 s1 k0 k1 r c hr hc
+  simpa only [effKernel, gt_iff_lt, hs0, hs1, if_true] using this
+
+/-- a kernel that reads the same in both directions, with a centre tap (odd length) — what
+    `gaussian_kernel` produces -/
+def SymmOdd (w : Array Rat) : Prop :=
+  w.size % 2 = 1 ∧ ∀ j, j < w.size → get w (w.size - 1 - j) = get w j
+
+/-- the same with the word "convolved" taken literally: for symmetric odd-length kernels the
+    correlation above is the convolution `Σ k₀[a]·k₁[b]·img(r − (a − c₀), c − (b − c₁))`. -/
+theorem lowpass_is_convolution_symm (H W : Nat) (img : Array Rat) (hsz : img.size = H * W)
+    (s0 s1 : Rat) (hs0 : 0 < s0) (hs1 : 0 < s1) (k0 k1 : Array Rat)
+    (hk0 : SymmOdd k0) (hk1 : SymmOdd k1) (r c : Nat) (hr : r < H) (hc : c < W) :
+    px W (lowpass [H, W] img [s0, s1] [k0, k1]) r c =
+      sumTo k0.size (fun a => sumTo k1.size (fun b =>
+        get k0 a * get k1 b *
+          pxZ H W img ((r : Int) - ((a : Int) - ((k0.size / 2 : Nat) : Int)))
+                      ((c : Int) - ((b : Int) - ((k1.size / 2 : Nat) : Int))))) := by
+  rw [lowpass_is_convolution H W img hsz s0 s1 hs0 hs1 k0 k1 r c hr hc]
+  rw [← sumTo_reflect k0.size]
+  apply sumTo_congr; intro a ha
+  rw [← sumTo_reflect k1.size]
+  apply sumTo_congr; intro b hb
+  rw [hk0.2 a ha, hk1.2 b hb]
+  have e0 : ((r : Int) + ((k0.size - 1 - a : Nat) : Int) - ((k0.size / 2 : Nat) : Int)) =
+      (r : Int) - ((a : Int) - ((k0.size / 2 : Nat) : Int)) := by have := hk0.1; omega
+  have e1 : ((c : Int) + ((k1.size - 1 - b : Nat) : Int) - ((k1.size / 2 : Nat) : Int)) =
+      (c : Int) - ((b : Int) - ((k1.size / 2 : Nat) : Int)) := by have := hk1.1; omega
+  rw [e0, e1]
+
+/-- **"its rolling average over a box of side llong (edge values repeated)"**, 2-D, every
+    combination of averaged / skipped axes: pixel `(r, c)` of `boxcar` is the mean of the
+    `m₀ × m₁` pixels of the edge-replicated image in the box centred on `(r, c)`, `mₐ` the side in
+    force on axis `a`. -/
+theorem boxcar_is_box_mean_gen (H W : Nat) (img : Array Rat) (hsz : img.size = H * W)
+    (l0 l1 : Int) (r c : Nat) (hr : r < H) (hc : c < W) :
+    px W (boxcarRaw [H, W] img [l0, l1]) r c =
+      sumTo (effSize l0) (fun a => sumTo (effSize l1) (fun b =>
+        pxC H W img ((r : Int) + (a : Int) - ((effSize l0 / 2 : Nat) : Int))
+                    ((c : Int) + (b : Int) - ((effSize l1 / 2 : Nat) : Int))))
+        / ((effSize l0 : Rat) * (effSize l1 : Rat)) := by
+  unfold boxcarRaw
+  simp only [List.map]
+  rw [px_passes2 (srcOK_boxFilt l1) hsz hr hc, boxFilt_apply _ hc]
+  simp only [boxFilt_apply _ hr]
+  generalize effSize l0 = m0
+  generalize effSize l1 = m1
+  rw [apply_comm]
+  unfold Filt.apply
+  simp only [sample_unif, show ∀ m j, (unif m).wt j = 1 / (m : Rat) from fun _ _ => rfl,
+    show ∀ m, (unif m).K = m from fun _ => rfl]
+  rw [sumTo_mul_left]
+  have : ∀ a : Nat, sumTo m1 (fun b => 1 / (m1 : Rat) *
+        px W img (clampI H ((r : Int) + (a : Int) - ((m0 / 2 : Nat) : Int)))
+          (clampI W ((c : Int) + (b : Int) - ((m1 / 2 : Nat) : Int)))) =
+      1 / (m1 : Rat) * sumTo m1 (fun b =>
+        pxC H W img ((r : Int) + (a : Int) - ((m0 / 2 : Nat) : Int))
+          ((c : Int) + (b : Int) - ((m1 / 2 : Nat) : Int))) := by
+    intro a; rw [sumTo_mul_left]; rfl
+  simp only [this]
+  rw [sumTo_mul_left]
+  simp only [div_eq_mul_inv, mul_inv]
+  ring
+
+/-- the same with both sizes `> 1` -/
+theorem boxcar_is_box_mean (H W : Nat) (img : Array Rat) (hsz : img.size = H * W)
+    (l0 l1 : Int) (hl0 : 1 < l0) (hl1 : 1 < l1) (r c : Nat) (hr : r < H) (hc : c < W) :
+    px W (boxcarRaw [H, W] img [l0, l1]) r c =
+      sumTo l0.toNat (fun a => sumTo l1.toNat (fun b =>
+        pxC H W img ((r : Int) + (a : Int) - ((l0.toNat / 2 : Nat) : Int))
+                    ((c : Int) + (b : Int) - ((l1.toNat / 2 : Nat) : Int))))
+        / ((l0.toNat : Rat) * (l1.toNat : Rat)) := by
+  have := boxcar_is_box_mean_gen H W img hsz l0 l1 r c hr hc
+  simpa only [effSize, gt_iff_lt, hl0, hl1, if_true] using this
+
+/-! ## non-vacuity: a concrete 3 × 3 image, kernel (1/4, 1/2, 1/4), box 3 × 3, threshold 1 -/
+
+def exK : Array Rat := #[1/4, 1/2, 1/4]
+def exI : Array Rat := #[0, 0, 0, 0, 16, 0, 0, 0, 9]
+
+example : SymmOdd exK := by
+  refine ⟨rfl, ?_⟩
+  intro j hj
+  have : j = 0 ∨ j = 1 ∨ j = 2 := by simp [exK] at hj; omega
+  rcases this with rfl | rfl | rfl <;> simp [exK, TrackpyV.Bandpass.get]
+
+/-- the hypotheses of the theorems above are satisfiable: the call is accepted -/
+example : ∃ out, bandpass [3, 3] exI [1, 1] [exK, exK] [3, 3] (some 1) = .ok out :=
+  ⟨_, (bandpass_ok_iff _ _ _ _ _ _ _).mpr ⟨by simp [Accepts, scaleClash, isOdd], rfl⟩⟩
+
+theorem ex_low : px 3 (lowpass [3, 3] exI [1, 1] [exK, exK]) 1 1 = 73 / 16 := by
+  rw [lowpass_is_convolution 3 3 exI rfl 1 1 (by norm_num) (by norm_num) exK exK 1 1
+    (by omega) (by omega)]
+  simp [sumTo, pxZ, extZ, px, TrackpyV.Bandpass.get, exI, exK]
+  norm_num
+
+theorem ex_box : px 3 (boxcarRaw [3, 3] exI [3, 3]) 1 1 = 25 / 9 := by
+  rw [boxcar_is_box_mean 3 3 exI rfl 3 3 (by norm_num) (by norm_num) 1 1 (by omega) (by omega)]
+  simp [sumTo, pxC, clampI, px, TrackpyV.Bandpass.get, exI]
+  norm_num
+
+/-- … the centre pixel is kept with the value `73/16 − 25/9 = 257/144 ≥ 1` -/
+example (out : Array Rat) (h : bandpass [3, 3] exI [1, 1] [exK, exK] [3, 3] (some 1) = .ok out) :
+    get out 4 = 257 / 144 := by
+  have hl : get (lowpass [3, 3] exI [1, 1] [exK, exK]) 4 = 73 / 16 := ex_low
+  have hb : get (boxcarRaw [3, 3] exI [3, 3]) 4 = 25 / 9 := ex_box
+  rw [bandpass_pixel _ _ _ _ _ _ _ h 4 (by simp [exI]), hl, hb]
+  simp [thrOf]; norm_num
+
+/-- … a clash of scales and an even size are refused -/
+example : ∃ e, bandpass [3, 3] exI [3, 1] [exK, exK] [3, 3] (some 1) = .error e :=
+  bandpass_rejects _ _ _ _ _ _ 0 3 3 rfl rfl (by norm_num)
+example : ∃ e, bandpass [3, 3] exI [1, 1] [exK, exK] [3, 4] (some 1) = .error e :=
+  bandpass_rejects_even _ _ _ _ _ _ 4 (by simp) rfl
 
 end TrackpyV.Bandpass
